@@ -130,7 +130,9 @@ def run_snip(case, stt):
     if n > 0 or True:
         T0 = None if z.start_time is None else O.T(z.start_time) + teff / rate
         if n > 0:
-            assert_start(y, T0, k=2, offset_s=teff / rate, what="snippet: ")
+            # two library Time operations (start - shift*dt, then the slice's start + i*dt); for a Time argument teff itself is measured
+            # with one more Time subtraction (each in UTC goes through TAI and back)
+            assert_start(y, T0, k=4 if case["form"] == "time" else 2, offset_s=teff / rate, what="snippet: ")
         else:
             check((y.start_time is None) == (z.start_time is None), "start_time presence changed")
     if whole:
